@@ -12,28 +12,28 @@ Open Scope N_scope.
 Lemma dup_fresh template : dup template = idle_chan.
 Proof. reflexivity. Qed.
 
-Lemma minit_template_irrelevant bs t1 t2 oracles : minit bs t1 oracles = minit bs t2 oracles.
-Proof. reflexivity. Qed.
+(* an instance is created on first use, by dup from the live template: idle, whatever that state is *)
+Lemma created_idle s c : chs s c = None -> inst_of s c = idle_chan.
+Proof. unfold inst_of. intros ->. reflexivity. Qed.
 
 Section Links.
-Variable tx : N -> N.
-Variable mt : metrics.
+Variable txs : N -> N -> N.
+Variable mts : N -> metrics.
 Variable mbursts : list (N * list (N * N * N)).
-Variable template : N -> chan.
 Variable oracles : N -> list N.
 
-Definition mreach (n : nat) : mst := msteps own_instance tx mt mbursts n (minit mbursts template oracles).
+Definition mreach (n : nat) : mst := msteps own_instance txs mts mbursts n (minit mbursts oracles).
 
-(* the single-channel run of channel c: only c's part of the script and c's samples occur in it *)
+(* the single-channel run of channel c: only c's metrics, c's part of the script and c's samples occur in it *)
 Definition own_run (c : N) (k : nat) : st :=
-  steps current enc_ev tx mt (pbursts mbursts c) k (init enc_ev (pbursts mbursts c) (oracles c)).
+  steps current enc_ev (txs c) (mts c) (pbursts mbursts c) k (init enc_ev (pbursts mbursts c) (oracles c)).
 
 Theorem links_independent c n :
   c < NCH ->
-  exists k, chs (mreach n) c = ch (own_run c k) /\ orcs (mreach n) c = orc (own_run c k) /\
+  exists k, inst_of (mreach n) c = ch (own_run c k) /\ orcs (mreach n) c = orc (own_run c k) /\
             plog c (mlog (mreach n)) = log (own_run c k).
 Proof.
-  intros Hc. destruct (multi_projects tx mt mbursts c Hc template oracles n) as [k [H1 H2 H3 _]].
+  intros Hc. destruct (multi_projects txs mts mbursts c Hc oracles n) as [k [H1 H2 H3 _]].
   exists k. refine (conj H1 (conj H2 H3)).
 Qed.
 
@@ -42,7 +42,7 @@ Qed.
 Theorem multi_transfer (P : chan -> list item -> Prop) c n :
   c < NCH ->
   (forall k, P (ch (own_run c k)) (log (own_run c k))) ->
-  P (chs (mreach n) c) (plog c (mlog (mreach n))).
+  P (inst_of (mreach n) c) (plog c (mlog (mreach n))).
 Proof.
   intros Hc HP. destruct (links_independent c n Hc) as [k [H1 [_ H3]]]. rewrite H1, H3. apply HP.
 Qed.
@@ -50,25 +50,25 @@ Qed.
 Corollary multi_channel_wf c n :
   c < NCH ->
   let l := plog c (mlog (mreach n)) in
-  let r := chs (mreach n) c in
-  wf_log tx mt l /\ cur_of tx l = (if busy r then Some (finish r) else None) /\ queue_of l = buffer r /\
+  let r := inst_of (mreach n) c in
+  wf_log (txs c) (mts c) l /\ cur_of (txs c) l = (if busy r then Some (finish r) else None) /\ queue_of l = buffer r /\
   acc r = qsum (buffer r) /\ (busy r = false -> buffer r = []).
 Proof.
   intros Hc. cbv zeta.
-  apply (multi_transfer (fun r l => wf_log tx mt l /\ cur_of tx l = (if busy r then Some (finish r) else None) /\
+  apply (multi_transfer (fun r l => wf_log (txs c) (mts c) l /\ cur_of (txs c) l = (if busy r then Some (finish r) else None) /\
                                     queue_of l = buffer r /\ acc r = qsum (buffer r) /\ (busy r = false -> buffer r = [])) c n Hc).
-  intros k. destruct (Good_reachable tx mt (pbursts mbursts c) (oracles c) k) as [HC Hi].
+  intros k. destruct (Good_reachable (txs c) (mts c) (pbursts mbursts c) (oracles c) k) as [HC Hi].
   refine (conj (C_wf _ _ _ HC) (conj (C_cur _ _ _ HC) (conj (C_queue _ _ _ HC) (conj (C_acc _ _ _ HC) Hi)))).
 Qed.
 
 Corollary multi_zero_jitter_order c n :
-  c < NCH -> m_jit mt = 0 ->
+  c < NCH -> m_jit (mts c) = 0 ->
   let l := plog c (mlog (mreach n)) in
   exists later, rev (accepted l) = rev (delivered l) ++ later.
 Proof.
   intros Hc Hj. cbv zeta.
   apply (multi_transfer (fun _ l => exists later, rev (accepted l) = rev (delivered l) ++ later) c n Hc).
-  intros k. eexists. apply (zero_jitter_preserves_order tx mt (pbursts mbursts c) Hj (oracles c) k).
+  intros k. eexists. apply (zero_jitter_preserves_order (txs c) (mts c) (pbursts mbursts c) Hj (oracles c) k).
 Qed.
 
 End Links.
